@@ -106,6 +106,8 @@ def parse_one_request(data: bytes, pos: int, limits: dict):
             raise Rej("limit_line")
         # LF/CTL checks on a partial request line are left to the complete line
         raise
+    except Rej as r:
+        raise Rej(r.cls + "_in_request_line") if r.cls == "bare_lf" else r
     if len(rl) > lim_line:
         raise Rej("limit_line")
     parts = rl.split(b" ")
@@ -157,6 +159,8 @@ def parse_one_request(data: bytes, pos: int, limits: dict):
             if len(data) - p > max(lim_field, lim_line) + 1:
                 raise Rej("limit_field")
             raise
+        except Rej as r:
+            raise Rej(r.cls + "_in_header") if r.cls == "bare_lf" else r
         if ln == b"":
             p = p2
             break
@@ -209,7 +213,11 @@ def parse_one_request(data: bytes, pos: int, limits: dict):
         if any(x == b"" for x in parts_):
             raise Dc("empty_te_list_element")
         lowp = [x.lower() for x in parts_]
-        if any(not x.isascii() for x in parts_):
+        if any(not is_token(x.split(b";")[0].strip(b" \t")) for x in parts_):
+            # an element that is not a transfer-coding token: if the final coding is still a
+            # single 'chunked' the framing is unambiguous and 501/400/accept are all defensible
+            if lowp[-1] == b"chunked" and lowp.count(b"chunked") == 1:
+                raise Dc("non_token_transfer_coding_before_chunked")
             raise Rej("te_not_chunked")
         if lowp.count(b"chunked") != 1 or lowp[-1] != b"chunked":
             raise Rej("te_not_single_final_chunked")
@@ -242,6 +250,8 @@ def parse_one_request(data: bytes, pos: int, limits: dict):
                 if len(data) - p > lim_line + 1:
                     raise Rej("limit_chunk_line")
                 raise
+            except Rej as r:
+                raise Rej(r.cls + "_in_chunk_line") if r.cls == "bare_lf" else r
             if len(sl) > lim_line:
                 raise Rej("limit_chunk_line")
             k = sl.find(b";")
@@ -277,6 +287,8 @@ def parse_one_request(data: bytes, pos: int, limits: dict):
                 if len(data) - p > lim_field + 1:
                     raise Rej("limit_trailer")
                 raise
+            except Rej as r:
+                raise Rej(r.cls + "_in_trailer") if r.cls == "bare_lf" else r
             p = q
             if ln == b"":
                 break
@@ -487,15 +499,15 @@ def selftest():
     assert v(ch.replace(b"chunked", b"chunked, chunked")) == (0, "REJECT", "te_not_single_final_chunked")
     assert v(ch.replace(b"chunked", b"gzip")) == (0, "REJECT", "te_not_single_final_chunked")
     assert v(ch.replace(b"chunked", b"chunked, gzip")) == (0, "REJECT", "te_not_single_final_chunked")
-    assert v(ch.replace(b"3\r\nabc", b"3\nabc")) == (0, "REJECT", "bare_lf")
+    assert v(ch.replace(b"3\r\nabc", b"3\nabc")) == (0, "REJECT", "bare_lf_in_chunk_line")
     assert v(ch.replace(b"3\r\nabc", b"0x3\r\nabc")) == (0, "REJECT", "bad_chunk_size")
     assert v(ch.replace(b"abc\r\n", b"abcd\r\n")) == (0, "REJECT", "no_crlf_after_chunk")
     assert v(ch.replace(b"3\r\n", b"3;a\rb\r\n")) == (0, "REJECT", "ctl_in_chunk_ext")
     assert v(b"GET / HTTP/1.1\r\nHost : a\r\n\r\n") == (0, "REJECT", "ws_around_name")
     assert v(b"GET / HTTP/1.1\r\nHost: a\r\n b\r\n\r\n") == (0, "REJECT", "obs_fold")
-    assert v(b"GET / HTTP/1.1\r\nHost: a\nX: y\r\n\r\n") == (0, "REJECT", "bare_lf")
+    assert v(b"GET / HTTP/1.1\r\nHost: a\nX: y\r\n\r\n") == (0, "REJECT", "bare_lf_in_header")
     assert v(b"GET / HTTP/1.1\r\nHost: a\r\nX: a\x00b\r\n\r\n") == (0, "REJECT", "ctl_in_value")
-    assert v(b"GET /a\nb HTTP/1.1\r\nHost: a\r\n\r\n") == (0, "REJECT", "bare_lf")
+    assert v(b"GET /a\nb HTTP/1.1\r\nHost: a\r\n\r\n") == (0, "REJECT", "bare_lf_in_request_line")
     assert v(b"GET /a\tb HTTP/1.1\r\nHost: a\r\n\r\n") == (0, "REJECT", "bad_target_bytes")
     assert v(b"GET  / HTTP/1.1\r\nHost: a\r\n\r\n") == (0, "REJECT", "request_line_shape")
     assert v(b"GET / HTTP/2.0\r\nHost: a\r\n\r\n")[1] == "DONT_CARE"
